@@ -132,11 +132,17 @@ def merge_result(agg: dict, res: dict, params: dict):
 # ---------------------------------------------------------------------------
 # parent side
 
+#: a module's MIN_OBS values are what a typical run observes at the very least;
+#: the verdict turns inconclusive below half of that (seed-to-seed variation
+#: must never flip a conclusive run)
+MIN_OBS_SCALE = 0.5
+
+
 def _min_obs(mod, tier: str) -> dict:
     mo = getattr(mod, 'MIN_OBS', {}) or {}
     if 'quick' in mo or 'thorough' in mo:
-        return mo.get(tier, {})
-    return mo
+        mo = mo.get(tier, {})
+    return {k: int(v * MIN_OBS_SCALE) for k, v in mo.items()}
 
 
 def run_check(prop: str, tier: str, seed: int, jobs: int) -> int:
